@@ -299,6 +299,11 @@ func runSeq(c core.Case, prop string, reopen bool) core.Result {
 	}
 	defer func() { eng.H.OnCompaction = nil }()
 	before := eng.H.Snapshot()
+	if tb := int(c.Int("tsbase", 0)); tb > 0 {
+		// a store that has already seen very many commits
+		eng.PlantTimestamp(d.dir, d.cfg, eng.TsBases[(tb-1)%len(eng.TsBases)])
+		res.AddObs("cases_on_a_store_with_a_high_timestamp", 1)
+	}
 	if !d.open() {
 		return res
 	}
@@ -562,6 +567,9 @@ func genSeq(tier string, seed int64, prop string, nQuick, nThorough int) []core.
 		}
 		if prop == "C02" && i%4 == 2 {
 			c.N["pathspell"] = 1
+		}
+		if i%8 == 3 {
+			c.N["tsbase"] = int64(1 + (i/8)%5)
 		}
 		if i%8 == 7 {
 			c.N["l0"] = []int64{8, 0, 12, 2}[(i/8)%4]
